@@ -217,7 +217,20 @@ pub struct UnorderedChan {
     pub have: HashMap<usize, BTreeSet<usize>>,
     pub due: BTreeSet<usize>,
     pub max_obtained_idx: Option<usize>,
+    /// all submissions below this index have been obtained
+    pub first_unobtained: usize,
+    /// submission indexes that already have a wire id
+    pub mapped_idx: std::collections::HashSet<usize>,
     pub bad: bool,
+}
+
+impl UnorderedChan {
+    fn older_missing(&mut self, i: usize) -> bool {
+        while self.first_unobtained < self.obtained.len() && self.obtained[self.first_unobtained] {
+            self.first_unobtained += 1;
+        }
+        self.first_unobtained < i
+    }
 }
 
 pub struct UnorderedOracle {
@@ -295,14 +308,12 @@ impl UnorderedOracle {
                                 }
                             } else {
                                 // short: lowest index with this content that is not mapped yet
-                                c.short.get(&m[..]).and_then(|v| {
-                                    let mapped: BTreeSet<usize> = c.id_map.values().copied().collect();
-                                    v.iter().copied().find(|i| !mapped.contains(i))
-                                })
+                                c.short.get(&m[..]).and_then(|v| v.iter().copied().find(|i| !c.mapped_idx.contains(i)))
                             };
                             if let Some(i) = found {
                                 if !mark {
                                     c.id_map.insert(*id, i);
+                                    c.mapped_idx.insert(i);
                                 }
                             }
                             found
@@ -312,7 +323,7 @@ impl UnorderedOracle {
                         if c.subs[i].as_slice() == &m[..] {
                             if c.obtained[i] {
                                 out.count("dup_after_consume");
-                                if c.obtained.iter().take(i).any(|o| !*o) {
+                                if c.older_missing(i) {
                                     out.count("late_dup_with_older_missing");
                                 }
                             }
@@ -361,7 +372,7 @@ impl UnorderedOracle {
                         if c.obtained[i] {
                             out.count("dup_after_consume");
                             out.count("late_slice_after_delivery");
-                            if c.obtained.iter().take(i).any(|o| !*o) {
+                            if c.older_missing(i) {
                                 out.count("late_slice_with_older_missing");
                             }
                         }
